@@ -1,6 +1,8 @@
 package main
 
 import (
+	"time"
+	"math"
 	"bytes"
 	"fmt"
 	"os/exec"
@@ -78,12 +80,33 @@ func (m c03) marshalAndValidate(c *Ctx, d *DocSpec, incl []c03include, useRange 
 				}
 			}
 		}
+		if strings.HasPrefix(tag, "unencodable") {
+			// a value that encoding/json cannot write (a time beyond year 9999, NaN in resource-level meta): the
+			// marshal may fail, but if it reports success the output is still a well-formed document
+			for i, res := range append(append([]jsonapi.Resource{}, b.Primary...), b.Included...) {
+				if (i+len(tag))%2 == 0 {
+					if mh, ok := res.(jsonapi.MetaHolder); ok {
+						mh.SetMeta(jsonapi.Meta{"nan": math.NaN(), "ok": 1})
+					}
+				}
+				for _, a := range res.Attrs() {
+					if a.Type == jsonapi.AttrTypeTime && !a.Nullable {
+						res.Set(a.Name, time.Date(12000+i, 1, 2, 3, 4, 5, 0, time.UTC))
+					}
+				}
+			}
+			c.Count("documents_with_unencodable_values")
+		}
 		out, err = jsonapi.MarshalDocument(b.Doc, b.URL)
 	}); pi != nil {
 		c.Violate("panic@"+pi.Frame+"/"+panicClass(pi.Val)+"/"+tag, "%s; %s", pi, desc())
 		return
 	}
 	if err != nil {
+		if strings.HasPrefix(tag, "unencodable") {
+			c.Count("unencodable_refused")
+			return
+		}
 		c.Violate("marshal-error/"+tag, "%v; %s", err, desc())
 		return
 	}
@@ -197,6 +220,9 @@ func (m c03) Case(c *Ctx, r *RNG) {
 		c.Sample(d)
 	}
 	m.marshalAndValidate(c, d, nil, false, "as-given")
+	if c.Index%8 == 3 && (d.Kind == "resource" || d.Kind == "collection") {
+		m.marshalAndValidate(c, d, nil, false, "unencodable-values")
+	}
 
 	// the same document with included rebuilt through Include
 	if d.Kind == "identifier" || d.Kind == "identifiers" {
